@@ -258,6 +258,15 @@ Proof.
   - eapply IH; eauto.
 Qed.
 
+Lemma nodup_app_l : forall (a b : list Z), NoDup (a ++ b) -> NoDup a.
+Proof.
+  induction a as [|x a IH]; cbn; intros b H; [constructor|]. inversion H as [|? ? Hx H']; subst.
+  constructor; [|eapply IH; eauto]. intros Hin. apply Hx, in_or_app. left. exact Hin.
+Qed.
+
+Lemma nodup_app_r : forall (a b : list Z), NoDup (a ++ b) -> NoDup b.
+Proof. induction a as [|x a IH]; cbn; intros b H; [exact H|]. inversion H; subst. auto. Qed.
+
 Lemma nodup_map_filter : forall (f : entry -> Z) p l, NoDup (map f l) -> NoDup (map f (filter p l)).
 Proof.
   intros f p l. induction l as [|x l IH]; cbn; intros Hn; [constructor|].
@@ -442,9 +451,9 @@ Proof.
   assert (Hqn2 : NoDup (map e_seq p ++ map e_seq (w_q w))) by (rewrite <- map_app, <- P1; exact Hqn).
   constructor; unfold taken; proj; rewrite ?T; try assumption.
   - rewrite P1 in Hs. eapply sorted_app_r, Hs.
-  - eapply NoDup_app_remove_l, Hqn2.
+  - eapply nodup_app_r, Hqn2.
   - apply nodup_app_intro; [exact Htn| |].
-    + rewrite P2. apply nodup_map_filter. eapply NoDup_app_remove_r, Hqn2.
+    + rewrite P2. apply nodup_map_filter. eapply nodup_app_l, Hqn2.
     + intros s Ht Hn. destruct (New s Hn) as (y & Hy & Ey & _). apply (Hdj s); [|exact Ht].
       rewrite <- Ey. apply in_map, SubP, Hy.
   - intros s Hin Ht. apply in_app_or in Ht as [Ht|Hn].
@@ -484,3 +493,268 @@ Qed.
 
 Lemma inv_reachable : forall r st, reachable r st -> Inv r st.
 Proof. intros r st [ls H]. eapply inv_exec; [apply inv_init|exact H]. Qed.
+
+(* ------------------------------------------------------------------------------------------------ *)
+(* the history variables are functions of the label sequence                                         *)
+(* ------------------------------------------------------------------------------------------------ *)
+Lemma step_hist : forall r st l st', step r st l = Some st' ->
+  reqs st' = reqs st ++ sched_log (seq st) [l] /\ seq st' = seq st + Z.of_nat (length (sched_log (seq st) [l])) /\
+  cancels st' = cancels st ++ cancel_log (now st) [l] /\
+  now st' = match l with Tick t => t | _ => now st end /\ now st <= now st'.
+Proof.
+  intros r st [d|s|t|b|] st' H; cbn in H.
+  - inversion H; subst; cbn. rewrite app_nil_r. repeat split; lia.
+  - destruct ((1 <=? s) && (s <=? seq st)); [|discriminate]. inversion H; subst; cbn. rewrite app_nil_r. repeat split; lia.
+  - destruct (Z.leb_spec (now st) t); [|discriminate]. inversion H; subst; cbn. rewrite !app_nil_r. repeat split; lia.
+  - destruct (worker_seg st b); [|discriminate]. inversion H; subst; cbn. rewrite !app_nil_r. repeat split; lia.
+  - destruct (spawned st); [discriminate|]. inversion H; subst; cbn. rewrite !app_nil_r. repeat split; lia.
+Qed.
+
+Lemma exec_reqs : forall r ls st st', exec r st ls = Some st' ->
+  reqs st' = reqs st ++ sched_log (seq st) ls.
+Proof.
+  intros r ls. induction ls as [|l ls IH]; cbn [exec]; intros st st' H.
+  - inversion H; subst. cbn. rewrite app_nil_r. reflexivity.
+  - destruct (step r st l) as [st1|] eqn:S; [|discriminate]. rewrite (IH _ _ H).
+    destruct (step_hist _ _ _ _ S) as (R & Q & _). rewrite R, Q, <- app_assoc. f_equal.
+    destruct l; cbn; rewrite ?Z.add_0_r; reflexivity.
+Qed.
+
+Lemma exec_cancels : forall r ls st st', exec r st ls = Some st' ->
+  cancels st' = cancels st ++ cancel_log (now st) ls.
+Proof.
+  intros r ls. induction ls as [|l ls IH]; cbn [exec]; intros st st' H.
+  - inversion H; subst. cbn. rewrite app_nil_r. reflexivity.
+  - destruct (step r st l) as [st1|] eqn:S; [|discriminate]. rewrite (IH _ _ H).
+    destruct (step_hist _ _ _ _ S) as (_ & _ & Cn & N & _). rewrite Cn, N, <- app_assoc. f_equal.
+    destruct l; cbn; reflexivity.
+Qed.
+
+Lemma exec_app : forall r l1 l2 st, exec r st (l1 ++ l2) = match exec r st l1 with Some st1 => exec r st1 l2 | None => None end.
+Proof.
+  intros r l1. induction l1 as [|l l1 IH]; cbn; intros l2 st; [reflexivity|].
+  destruct (step r st l); [apply IH|reflexivity].
+Qed.
+
+(* ------------------------------------------------------------------------------------------------ *)
+(* consequences of the invariant                                                                     *)
+(* ------------------------------------------------------------------------------------------------ *)
+Lemma once_inv : forall r st, Inv r st -> NoDup (map fst (ran st)) /\ NoDup (spawned st) /\
+  (forall s, In s (map fst (ran st)) -> ~ In s (spawned st)).
+Proof.
+  intros r st HI. pose proof (I_tnd _ _ HI) as H. unfold taken in H. split; [eapply nodup_app_l, H|].
+  split; [eapply nodup_app_r, H|]. intros s H1 H2. eapply nodup_app_disj; eauto.
+Qed.
+
+Lemma fire_inv : forall r st s t, 0 <= r -> Inv r st -> In (s, t) (ran st) ->
+  exists d, In (s, d) (reqs st) /\ d <= t /\ ceilr r d <= t /\ t <= now st /\
+    (forall tc, In (s, tc) (cancels st) -> ceilr r d <= tc).
+Proof.
+  intros r st s t Hr HI Hin. destruct (I_ran _ _ HI _ _ Hin) as (d & D1 & D2 & D3).
+  exists d. pose proof (ceilr_ge r d Hr). repeat split; try assumption; try lia.
+  intros tc Hc. destruct (Z.lt_ge_cases tc (ceilr r d)) as [Lt|Ge]; [|lia].
+  destruct (I_canc _ _ HI _ _ _ Hc D1 Lt) as [C _]. exfalso. apply C. unfold taken. apply in_or_app. left.
+  change s with (fst (s, t)). apply in_map, Hin.
+Qed.
+
+Lemma no_lost_wakeup_inv : forall r st, Inv r st -> quiescent r st ->
+  forall e, In e (q st) -> now st < e_dl e.
+Proof.
+  intros r st HI (Q1 & Q2 & _) e He. unfold enabled in Q1, Q2. cbn in Q1, Q2. unfold worker_seg in Q1, Q2.
+  pose proof (I_pc _ _ HI) as Hpc. unfold pc_inv in Hpc. destruct (pc st) as [| | |ex|].
+  - discriminate.
+  - cbn in Q1. destruct (ev st) eqn:E; [discriminate|]. destruct Hpc as [H _]. rewrite (H eq_refl) in He. contradiction.
+  - discriminate.
+  - destruct (ev st) eqn:E; [discriminate|]. destruct (Z.leb_spec ex (now st)) as [|Lt]; [discriminate|].
+    destruct Hpc as (x & l & Q & _ & Hx & _). specialize (Hx eq_refl). pose proof (I_sorted _ _ HI) as Hs.
+    rewrite Q in Hs, He. destruct He as [<-|He]; [lia|]. destruct Hs as [Hs _]. specialize (Hs e He).
+    unfold key_lt in Hs. lia.
+  - contradiction.
+Qed.
+
+Lemma filter_len : forall (p : entry -> bool) l, (length (filter p l) <= length l)%nat.
+Proof. intros p l. induction l as [|x l IH]; cbn; [lia|]. destruct (p x); cbn; lia. Qed.
+
+Lemma mu_worker : forall r st b st', Inv r st -> step r st (Worker b) = Some st' -> mu st' < mu st.
+Proof.
+  intros r st b st' HI Hst. cbn in Hst. destruct (worker_seg st b) as [w|] eqn:W; [|discriminate].
+  inversion Hst; subst st'; clear Hst.
+  destruct (worker_seg_spec st b w (I_pc _ _ HI) W) as (p & (P1 & P2 & P3 & P4) & Pe & Pg).
+  cbn [app] in P2. unfold mu. proj. rewrite P1, P2, P4, !app_length, map_length.
+  pose proof (filter_len live p) as FL.
+  destruct Pe as [(E1 & E2 & E3)|[(E1 & E2)|(x & l & E1 & E2 & E3)]]; rewrite ?E1, ?E2, ?E3.
+  - destruct (pc st); lia.
+  - destruct Pg as [G|[G|[G|G]]]; rewrite ?G; try (destruct (ev st), (pc st); lia).
+    destruct p; [congruence|]. cbn [length] in *. destruct (ev st), (pc st); lia.
+  - destruct Pg as [G|[G|[G|G]]]; rewrite ?G; try (destruct (ev st), (pc st); lia).
+    destruct p; [congruence|]. cbn [length] in *. destruct (ev st), (pc st); lia.
+Qed.
+
+Lemma mu_run : forall r st st', step r st Run = Some st' -> mu st' < mu st.
+Proof.
+  intros r st st' H. cbn in H. destruct (spawned st) eqn:Sp; [discriminate|]. inversion H; subst. unfold mu. proj.
+  rewrite Sp. cbn [length]. lia.
+Qed.
+
+Lemma mu_cancel : forall r st s st', step r st (Cancel s) = Some st' -> mu st' = mu st.
+Proof.
+  intros r st s st' H. cbn in H. destruct ((1 <=? s) && (s <=? seq st)); [|discriminate]. inversion H; subst.
+  unfold mu. proj. rewrite map_length. reflexivity.
+Qed.
+
+Lemma mu_nonneg : forall st, 0 <= mu st.
+Proof. intros st. unfold mu. destruct (ev st), (pc st); lia. Qed.
+
+Lemma terminates_inv : forall r ls st st', Inv r st -> forallb internal ls = true -> exec r st ls = Some st' ->
+  wr_count ls <= mu st - mu st'.
+Proof.
+  intros r ls. induction ls as [|l ls IH]; cbn [exec forallb wr_count]; intros st st' HI Hint H.
+  - inversion H; subst. lia.
+  - apply andb_true_iff in Hint as [Hl Hint]. destruct (step r st l) as [st1|] eqn:S; [|discriminate].
+    specialize (IH st1 st' (inv_step _ _ _ _ HI S) Hint H). destruct l as [d|s|t|b|]; try discriminate.
+    + rewrite <- (mu_cancel _ _ _ _ S). exact IH.
+    + pose proof (mu_worker _ _ _ _ HI S). lia.
+    + pose proof (mu_run _ _ _ S). lia.
+Qed.
+
+Lemma order_step : forall r st b st', Inv r st -> step r st (Worker b) = Some st' ->
+  exists p, q st = p ++ q st' /\ sorted (p ++ q st') /\
+    spawned st' = spawned st ++ map e_seq (filter live p) /\
+    (forall x, In x p -> e_canc x = true \/ e_dl x <= now st) /\ ran st' = ran st.
+Proof.
+  intros r st b st' HI Hst. cbn in Hst. destruct (worker_seg st b) as [w|] eqn:W; [|discriminate].
+  inversion Hst; subst st'; clear Hst.
+  destruct (worker_seg_spec st b w (I_pc _ _ HI) W) as (p & (P1 & P2 & P3 & P4) & _ & _).
+  exists p. proj. rewrite <- P1. repeat split; try assumption; [apply (I_sorted _ _ HI)|rewrite P2; reflexivity].
+Qed.
+
+(* ------------------------------------------------------------------------------------------------ *)
+(* second invariant: nothing is lost, and the global take order                                      *)
+(* ------------------------------------------------------------------------------------------------ *)
+(* every pair (a before b) of the list satisfies P a b *)
+Fixpoint ordered (P : Z -> Z -> Prop) (l : list Z) : Prop :=
+  match l with
+  | [] => True
+  | a :: l' => (forall b, In b l' -> P a b) /\ ordered P l'
+  end.
+
+Lemma ordered_app : forall P l1 l2,
+  ordered P (l1 ++ l2) <-> ordered P l1 /\ ordered P l2 /\ (forall a b, In a l1 -> In b l2 -> P a b).
+Proof.
+  intros P l1 l2. induction l1 as [|x l1 IH]; cbn.
+  - intuition.
+  - rewrite IH. split.
+    + intros (H1 & H2 & H3 & H4). repeat split; auto.
+      * intros b Hb. apply H1, in_or_app. left. exact Hb.
+      * intros a b [<-|Ha] Hb; [apply H1, in_or_app; right; exact Hb|apply H4; assumption].
+    + intros ((H1 & H2) & H3 & H4). repeat split; auto.
+      intros b Hb. apply in_app_or in Hb as [Hb|Hb]; [apply H1, Hb|apply H4; auto].
+Qed.
+
+Lemma ordered_mono : forall (P P' : Z -> Z -> Prop) l,
+  (forall a b, In a l -> In b l -> P a b -> P' a b) -> ordered P l -> ordered P' l.
+Proof.
+  intros P P' l. induction l as [|x l IH]; cbn; intros Hm H; [exact I|]. destruct H as [H1 H2]. split.
+  - intros b Hb. apply Hm; auto.
+  - apply IH; [|exact H2]. intros a b Ha Hb. apply Hm; auto.
+Qed.
+
+Lemma ordered_sorted : forall (P : Z -> Z -> Prop) f l,
+  sorted l -> (forall x y, In x l -> In y l -> key_lt x y -> P (e_seq x) (e_seq y)) ->
+  ordered P (map e_seq (filter f l)).
+Proof.
+  intros P f l. induction l as [|x l IH]; cbn; intros Hs Hp; [exact I|]. destruct Hs as [Hx Hs].
+  assert (IH' : ordered P (map e_seq (filter f l))) by (apply IH; [exact Hs|intros; apply Hp; auto]).
+  destruct (f x); [|exact IH']. cbn. split; [|exact IH'].
+  intros b Hb. apply in_map_iff in Hb as (y & <- & Hy). apply filter_In in Hy as [Hy _]. apply Hp; auto.
+Qed.
+
+(* "a before b" is allowed unless b was scheduled earlier with a rounded deadline that is not later *)
+Definition ord_ok (r : Z) (st : state) (a b : Z) : Prop :=
+  forall da db, In (a, da) (reqs st) -> In (b, db) (reqs st) -> b < a -> ceilr r da < ceilr r db.
+
+Record Inv2 (r : Z) (st : state) : Prop := mkInv2 {
+  J_cons : forall s d, In (s, d) (reqs st) ->
+             In s (map e_seq (q st)) \/ In s (taken st) \/ In s (map fst (cancels st));
+  J_flag : forall e, In e (q st) -> e_canc e = true -> In (e_seq e) (map fst (cancels st));
+  J_rest : forall a da e, In a (taken st) -> In (a, da) (reqs st) -> In e (q st) -> e_seq e < a -> ceilr r da < e_dl e;
+  J_ord : ordered (ord_ok r st) (taken st) }.
+
+Lemma inv2_init : forall r, Inv2 r init.
+Proof. intros r. constructor; cbn; try (intros; contradiction). exact I. Qed.
+
+Lemma inv2_step : forall r st l st', Inv r st -> Inv2 r st -> step r st l = Some st' -> Inv2 r st'.
+Proof.
+  intros r st l st' HI [Jc Jf Jr Jo] Hst. pose proof (inv_step _ _ _ _ HI Hst) as HI'.
+  destruct l as [d|s|t|b|]; cbn in Hst.
+  - (* Sched *) inversion Hst; subst st'; clear Hst.
+    assert (Old : forall a da, In a (taken st) -> In (a, da) (reqs st ++ [(seq st + 1, d)]) -> In (a, da) (reqs st)).
+    { intros a da Ha Hin. apply in_app_or in Hin as [Hin|[Hin|[]]]; [exact Hin|]. inversion Hin; subst.
+      pose proof (taken_range _ _ _ HI Ha). lia. }
+    constructor; unfold taken in *; proj.
+    + intros s d0 Hin. apply in_app_or in Hin as [Hin|[Hin|[]]].
+      * destruct (Jc s d0 Hin) as [H|[H|H]]; auto. left. apply in_map_iff in H as (y & Ey & Hy).
+        apply in_map_iff. exists y. split; [exact Ey|]. apply In_insert. right. exact Hy.
+      * inversion Hin; subst. left. apply in_map_iff. eexists. split; [|apply In_insert; left; reflexivity]. reflexivity.
+    + intros y Hy Cy. apply In_insert in Hy as [->|Hy]; [discriminate|]. apply Jf; assumption.
+    + intros a da y Ha Hr Hy Lt. apply In_insert in Hy as [->|Hy].
+      * cbn in Lt. pose proof (taken_range _ _ _ HI Ha). unfold taken in *. lia.
+      * eapply Jr; eauto.
+    + eapply ordered_mono; [|exact Jo]. intros a b Ha Hb Hp da db H1 H2. apply Hp; apply Old; assumption.
+  - (* Cancel *) destruct ((1 <=? s) && (s <=? seq st)); [|discriminate]. inversion Hst; subst st'; clear Hst.
+    constructor; unfold taken in *; proj.
+    + intros s0 d Hin. rewrite map_set_canc_seq, map_app. destruct (Jc s0 d Hin) as [H|[H|H]]; auto.
+      right. right. apply in_or_app. left. exact H.
+    + intros e' He' Ce. apply in_map_iff in He' as (y & <- & Hy). rewrite map_app. apply in_or_app.
+      destruct (set_canc_key s y) as [_ ->]. destruct (Z.eq_dec (e_seq y) s) as [E|N].
+      * right. left. cbn. auto.
+      * left. apply Jf; [exact Hy|]. rewrite (set_canc_other _ _ N) in Ce. exact Ce.
+    + intros a da e' Ha Hr He' Lt. apply in_map_iff in He' as (y & <- & Hy).
+      destruct (set_canc_key s y) as [E1 E2]. rewrite E1. rewrite E2 in Lt. eapply Jr; eauto.
+    + exact Jo.
+  - (* Tick *) destruct (Z.leb_spec (now st) t); [|discriminate]. inversion Hst; subst st'; clear Hst.
+    constructor; unfold taken in *; proj; assumption.
+  - (* Worker *) destruct (worker_seg st b) as [w|] eqn:W; [|discriminate]. inversion Hst; subst st'; clear Hst.
+    destruct (worker_seg_spec st b w (I_pc _ _ HI) W) as (p & (P1 & P2 & P3 & P4) & _ & _). cbn [app] in P2.
+    assert (T : map fst (ran st) ++ spawned st ++ w_new w = taken st ++ w_new w) by (unfold taken; rewrite app_assoc; reflexivity).
+    assert (Sub : forall y, In y (w_q w) -> In y (q st)) by (intros y Hy; rewrite P1; apply in_or_app; right; exact Hy).
+    assert (SubP : forall y, In y p -> In y (q st)) by (intros y Hy; rewrite P1; apply in_or_app; left; exact Hy).
+    pose proof (I_sorted _ _ HI) as Hs. rewrite P1 in Hs.
+    assert (Dl : forall y da, In y (q st) -> In (e_seq y, da) (reqs st) -> e_dl y = ceilr r da).
+    { intros y da Hy Hr. destruct (I_q _ _ HI y Hy) as (d' & D1 & D2). rewrite (I_rfun _ _ HI _ _ _ Hr D1). exact D2. }
+    assert (KL : forall x y, key_lt x y -> e_seq y < e_seq x -> e_dl x < e_dl y) by (unfold key_lt; intros; lia).
+    constructor; unfold taken; proj; rewrite ?T.
+    + intros s d Hin. destruct (Jc s d Hin) as [H|[H|H]]; auto; [|right; left; apply in_or_app; left; exact H].
+      rewrite P1, map_app in H. apply in_app_or in H as [H|H]; [|left; exact H].
+      apply in_map_iff in H as (y & Ey & Hy). destruct (e_canc y) eqn:Cy.
+      * right. right. rewrite <- Ey. apply Jf; [apply SubP, Hy|exact Cy].
+      * right. left. apply in_or_app. right. rewrite P2, <- Ey. apply in_map, filter_In. split; [exact Hy|].
+        unfold live. rewrite Cy. reflexivity.
+    + intros y Hy. apply Jf, Sub, Hy.
+    + intros a da y Ha Hr Hy Lt. apply in_app_or in Ha as [Ha|Ha]; [eapply Jr; eauto|].
+      rewrite P2 in Ha. apply in_map_iff in Ha as (x & <- & Hx). apply filter_In in Hx as [Hx _].
+      rewrite <- (Dl x da (SubP x Hx) Hr). apply KL; [|exact Lt]. eapply sorted_app_lt; eauto.
+    + apply ordered_app. split; [exact Jo|]. split.
+      * rewrite P2. apply ordered_sorted.
+        -- clear - Hs. induction p as [|x p IH]; cbn in *; [exact I|]. destruct Hs as [H1 H2]. split; [|apply IH, H2].
+           intros y Hy. apply H1, in_or_app. left. exact Hy.
+        -- intros x y Hx Hy K da db H1 H2 Lt. rewrite <- (Dl x da (SubP x Hx) H1), <- (Dl y db (SubP y Hy) H2).
+           apply KL; assumption.
+      * intros a c Ha Hc da db H1 H2 Lt. rewrite P2 in Hc. apply in_map_iff in Hc as (y & <- & Hy).
+        apply filter_In in Hy as [Hy _]. rewrite <- (Dl y db (SubP y Hy) H2). eapply Jr; eauto.
+  - (* Run *) destruct (spawned st) as [|s sp] eqn:Sp; [discriminate|]. inversion Hst; subst st'; clear Hst.
+    assert (T : map fst (ran st ++ [(s, now st)]) ++ sp = taken st).
+    { unfold taken. rewrite Sp, map_app, <- app_assoc. reflexivity. }
+    constructor; unfold taken; proj; rewrite ?T; assumption.
+Qed.
+
+Lemma inv2_exec : forall r ls st st', Inv r st -> Inv2 r st -> exec r st ls = Some st' -> Inv2 r st'.
+Proof.
+  intros r ls. induction ls as [|l ls IH]; cbn; intros st st' HI HJ H.
+  - inversion H; subst. exact HJ.
+  - destruct (step r st l) as [st1|] eqn:S; [|discriminate].
+    eapply IH; [eapply inv_step; eauto|eapply inv2_step; eauto|exact H].
+Qed.
+
+Lemma inv2_reachable : forall r st, reachable r st -> Inv2 r st.
+Proof. intros r st [ls H]. eapply inv2_exec; [apply inv_init|apply inv2_init|exact H]. Qed.
